@@ -14,6 +14,7 @@ mod laws;
 mod errs;
 mod session;
 mod jsonrt;
+mod serde_rt;
 
 use serde_json::Value;
 use std::fs::{File, OpenOptions};
@@ -34,6 +35,7 @@ fn runner(engine: &str) -> Runner {
         "laws" => laws::run_case,
         "errs" => errs::run_case,
         "json" => jsonrt::run_case,
+        "serde" => serde_rt::run_case,
         _ => die(&format!("unknown engine {}", engine)),
     }
 }
